@@ -110,6 +110,79 @@ def job_threads(job):
     say({"done": True})
 
 
+def job_recompile_loaded(job):
+    """compile model 0 -> save p; load p; call; compile() on the LOADED handle (to p or to another path); call again; load p again."""
+    import torchlogix.compiled_model as CM
+    m = model_by_id(0, job.get("kind", "dense"))
+    net = compiled.build(m, job["W"])
+    compiled.compile_net(net, save=job["path"])
+    k = 2 if job.get("kind", "dense") == "dense" else None
+    h = CM.CompiledLogicNet.load(job["path"], (5,), k, job["W"], **({} if k else {"output_size": 6}))
+    rows = probe(5, 24)
+    before = compiled.forward(h, rows)
+    target = job["path"] if job["same_path"] else job["path"] + ".second.so"
+    try:
+        import contextlib, io
+        with contextlib.redirect_stdout(io.StringIO()):
+            h.compile(save_lib_path=target)
+        accepted = True
+    except Exception as e:
+        accepted = False
+    after = compiled.forward(h, rows)
+    again = compiled.forward(CM.CompiledLogicNet.load(job["path"], (5,), k, job["W"], **({} if k else {"output_size": 6})), rows)
+    second = None
+    if accepted and not job["same_path"] and os.path.exists(target):
+        second = compiled.forward(CM.CompiledLogicNet.load(target, (5,), k, job["W"], **({} if k else {"output_size": 6})), rows)
+    say({"accepted": accepted, "before": before, "after": after, "reloaded": again, "second": second})
+    say({"done": True})
+
+
+def job_concurrent_save(job):
+    """several threads compile (different models) and save to ONE path at about the same time."""
+    import torchlogix.compiled_model as CM
+    rows = probe(5, 24)
+    nets_ = [compiled.build(model_by_id(i % 2), job["W"]) for i in range(job["threads"])]
+    refs = []
+    for i in (0, 1):
+        n0 = compiled.build(model_by_id(i), job["W"])
+        compiled.compile_net(n0)
+        refs.append(compiled.forward(n0, rows))
+    errs = []
+    lock = threading.Lock()
+    bar = threading.Barrier(job["threads"])
+
+    def work(i):
+        try:
+            bar.wait()
+            nets_[i].compile(save_lib_path=job["path"])       # no stdout redirection: not thread-safe
+            out = nets_[i].forward(np.array(rows, dtype=bool)).tolist()
+            if out != refs[i % 2]:
+                with lock:
+                    errs.append([i, "handle computes another function"])
+        except Exception as e:
+            with lock:
+                errs.append([i, f"{type(e).__name__}: {e}"[:160]])
+    rounds = 0
+    for rnd in range(job["rounds"]):
+        rounds += 1
+        bar.reset()
+        ths = [threading.Thread(target=work, args=(i,)) for i in range(job["threads"])]
+        for t in ths:
+            t.start()
+        for t in ths:
+            t.join()
+        try:
+            o = compiled.forward(CM.CompiledLogicNet.load(job["path"], (5,), 2, job["W"]), rows)
+            if o not in refs:
+                errs.append([-1, "the library at the path computes none of the saved models"])
+        except Exception as e:
+            errs.append([-1, f"load failed: {type(e).__name__}: {e}"[:160]])
+        if errs:
+            break
+    say({"rounds": rounds, "errors": errs[:4]})
+    say({"done": True})
+
+
 def job_save(job):
     """process A: build under seed s1, save state_dict and compiled library, report reference outputs."""
     torch.manual_seed(job["seed"])
@@ -201,4 +274,5 @@ def rebuild_like(m):
 
 if __name__ == "__main__":
     job = json.load(open(sys.argv[1]))
-    {"history": job_history, "threads": job_threads, "save": job_save, "reload": job_reload}[job["kind_of_job"]](job)
+    {"history": job_history, "threads": job_threads, "save": job_save, "reload": job_reload,
+     "recompile-loaded": job_recompile_loaded, "concurrent-save": job_concurrent_save}[job["kind_of_job"]](job)
